@@ -148,6 +148,15 @@ func (w *W) Event(ev, rel, sh string, n int) EventResult {
 		if err := w.do(replay.Step{A: "HandleTx", T: name}); err != nil {
 			return fail(err)
 		}
+		// relays repeat themselves: every other unconfirmed transaction is announced a second time
+		if n%2 == 0 {
+			if err := w.do(replay.Step{A: "Announce", T: name}); err != nil {
+				return fail(err)
+			}
+			if err := w.do(replay.Step{A: "HandleTx", T: name}); err != nil {
+				return fail(err)
+			}
+		}
 		r.Tip = w.E.BestHeight()
 		r.Synced, _ = w.W.SyncedTo()
 	}
